@@ -493,6 +493,9 @@ MODULES = {
     'CliTables': gen_cli_tables,
     'CliGen': gen_cli,
     'EdGen': _lazy('gen_ed', 'gen_ed'),
+    'MatchGen': _lazy('gen_match', 'gen_match'),
+    'ExprGen': _lazy('gen_expr', 'gen_expr'),
+    'HandlersGen': _lazy('gen_handlers', 'gen_handlers'),
 }
 
 if __name__ == '__main__':
